@@ -361,3 +361,7 @@ bam_getitem = Contract("C04.BamBufferExtractor.__getitem__[index array]", target
                                  ("claims contiguous", "is_contigous=False", "is_contigous=True")])
 
 CONTRACTS = [make_contiguous, getitem, fields_by_range, cat2, cat3, bam_make_contiguous, bam_make_contiguous_memo, bam_getitem]
+from contracts import thorough as _thorough      # noqa: E402
+if _thorough():
+    CONTRACTS += [Contract("C04.TextThroughputExtractor.concatenate[%d buffers]" % _k, target=lambda: _T().concatenate.__func__, setup=_setup_cat(_k), requires=_req_cat,
+                           ensures=_ens_cat) for _k in (4, 5)]
